@@ -42,7 +42,7 @@ def eqs(out, M, off=0):
 def make(tier):
     P = Plan('C14', level='proof', design_ref='DESIGN.md section 5 C14')
     P.meta += ['the scalar type is unsigned (the commutative ring Z/2^32, no undefined behaviour); the templates are parametric in the scalar, so an index or sign error shows in this ring as well; every operation is proved equal to its entrywise definition, and the ring/module identities are proved on the real code for 2x2 (and 3x3 where the solver closes) with z3/cvc5']
-    P.not_decided += ['floating-point functions (length, normalize, angle, rotation, exponential, logarithm, inverse over floats)', 'view storage (row_view) beyond at_r', '4x4 identities']
+    P.not_decided += ['floating-point functions (length, normalize, angle, rotation, exponential, logarithm, inverse over floats)', 'view storage (row_view) beyond at_r', '4x4 identities (4x4 product / transpose / determinant are under entrywise contracts)']
     fo = lambda n: '__CPROVER_is_fresh(o, %d)' % (4 * n)
     OW = '__CPROVER_object_whole(o)'
     C = {}
@@ -139,4 +139,55 @@ void h_m3_det_mult(void){ %(da9)s %(db9)s u32 ab[9];
                               ('h_m3_assoc', 'associativity 3x3', True, 'quick'), ('h_m3_det_mult', 'det(AB) = det(A) det(B), 3x3', True, 'thorough')):
         u.lemma(hn, cls='P', backends=['z3', 'z3new', 'cvc5'], stagger=2, native=False, timeout=600, optional=opt, tier=tr,
                 what='identity on the real templates over Z/2^32: ' + what)
+    # ---- second unit: comparison, init / map, helpers, 4x4 (more.cpp)
+    M = {}
+    S = lambda v: '(i32)%s' % v
+    def lex_lt(xs, ys):
+        e = '0'
+        for x, y in reversed(list(zip(xs, ys))):
+            e = '(%s < %s || (%s == %s && %s))' % (S(x), S(y), S(x), S(y), e)
+        return e
+    def cmp_ens(xs, ys):
+        eq = '(' + ' && '.join('%s == %s' % (x, y) for x, y in zip(xs, ys)) + ')'
+        lt, gt = lex_lt(xs, ys), lex_lt(ys, xs)
+        return 'o[0] == %s && o[1] == !%s && o[2] == %s && o[3] == %s && o[4] == !%s && o[5] == !%s' % (eq, eq, lt, gt, gt, lt)
+    fb = lambda n: '__CPROVER_is_fresh(o, %d)' % n
+    for nm, n in (('vf_v2_cmp', 2), ('vf_v3_cmp', 3), ('vf_v4_cmp', 4), ('vf_d3_cmp', 3)):
+        xs, ys = ['x%d' % i for i in range(n)], ['y%d' % i for i in range(n)]
+        M[nm] = ([fb(6)], cmp_ens(xs, ys), '==, !=, <, >, <=, >= of %d-dimensional %s agree with equality and the lexicographic order of plain arrays' % (n, 'dims' if 'd3' in nm else 'vectors'))
+    M['vf_m2_cmp'] = ([fb(2)], 'o[0] == (a0 == b0 && a1 == b1 && a2 == b2 && a3 == b3) && o[1] == !(a0 == b0 && a1 == b1 && a2 == b2 && a3 == b3)', 'matrix == / != compare every entry')
+    M['vf_v3_init'] = ([fo(3)], vec(['s', 's + 7', 's + 14']), 'vector::init: component i is f(i)')
+    M['vf_d3_init'] = ([fo(3)], vec(['s', 's + 7', 's + 14']), 'dim::init: component i is f(i)')
+    M['vf_v3_map'] = ([fo(3)], vec(['x0 * 3 + s', 'x1 * 3 + s', 'x2 * 3 + s']), 'vector::map: f per component')
+    M['vf_d3_map'] = ([fo(3)], vec(['x0 * 3 + s', 'x1 * 3 + s', 'x2 * 3 + s']), 'dim::map: f per component')
+    M['vf_v3_binary_map'] = ([fo(3)], vec(['x0 * 5 - y0', 'x1 * 5 - y1', 'x2 * 5 - y2']), 'vector::binary_map: f per pair of components')
+    M['vf_m23_init'] = ([fo(6)], vec(['s', 's + 1', 's + 2', 's + 10', 's + 11', 's + 12']), 'matrix::init (2x3): entry (r,c) is f(index<r,c>), row-major')
+    M['vf_m2_map'] = ([fo(4)], vec(['a0 * 3 + s', 'a1 * 3 + s', 'a2 * 3 + s', 'a3 * 3 + s']), 'matrix::map: f per entry')
+    M['vf_m2_binary_map'] = ([fo(4)], vec(['a%d * 5 - b%d' % (i, i) for i in range(4)]), 'matrix::binary_map: f per pair of entries')
+    M['vf_m2_structure_cast'] = ([fo(4)], 'o[0] == a0 && o[1] == a1 && o[2] == a2 && o[3] == a3', 'matrix structure_cast converts each entry')
+    M['vf_d3_contents'] = ([], '__CPROVER_return_value == (u32)(1u * x0 * x1 * x2)', 'dim::contents: product of the components')
+    M['vf_d3_is_quadratic'] = ([], '__CPROVER_return_value == (x0 == x1 && x1 == x2)', 'dim::is_quadratic: all components equal')
+    M['vf_d3_null_fill_narrow_push'] = ([fo(11)], vec(['0', '0', '0', 's', 's', 's', 'x0', 'x1', 'x0', 'x1', 's']), 'dim null / fill / narrow_cast / push_back')
+    M['vf_v3_unit'] = ([fo(3)], vec(['(axis == 0 ? 1 : 0)', '(axis == 1 ? 1 : 0)', '(axis == 2 ? 1 : 0)']), 'vector::unit(axis): 1 at the axis, 0 elsewhere')
+    M['vf_v3_mod'] = ([fo(3)], '__CPROVER_return_value == (y0 != 0 && y1 != 0 && y2 != 0) && VF_IMP(y0 != 0 && y1 != 0 && y2 != 0, o[0] == x0 % y0 && o[1] == x1 % y1 && o[2] == x2 % y2)', 'vector::mod(v, w): per component, nothing if any divisor is 0')
+    M['vf_v3_mod_scalar'] = ([fo(3)], '__CPROVER_return_value == (d != 0) && VF_IMP(d != 0, o[0] == x0 % d && o[1] == x1 % d && o[2] == x2 % d)', 'vector::mod(v, d): per component, nothing for d == 0')
+    M['vf_v3_to_signed_unsigned'] = (['__CPROVER_is_fresh(os, 12) && __CPROVER_is_fresh(ou, 12)'], 'os[0] == x0 && os[1] == x1 && os[2] == x2 && ou[0] == y0 && ou[1] == y1 && ou[2] == y2', 'to_signed / to_unsigned convert each component')
+    M['vf_v3_bit_strings'] = ([fo(24)], ' && '.join('o[%d] == %d' % (3 * k + j, (k >> j) & 1) for k in range(8) for j in range(3)), 'bit_strings<3>: the 8 bit vectors in the documented order')
+    M['vf_v2_bit_strings'] = ([fo(8)], ' && '.join('o[%d] == %d' % (2 * k + j, (k >> j) & 1) for k in range(4) for j in range(2)), 'bit_strings<2>: the 4 bit vectors in the documented order')
+    A4m, B4m = mat('a', 4), mat('b', 4)
+    M['vf_m4_mul'] = ([fo(16)], eqs('o', mmul(A4m, B4m, 4)), 'matrix product (4x4): entry (i,j) = sum_k a_ik * b_kj')
+    M['vf_m4_transpose'] = ([fo(16)], eqs('o', [[A4m[c][r] for c in range(4)] for r in range(4)]), 'transpose (4x4)')
+    M['vf_m4_vec'] = ([fo(4)], vec([' + '.join('%s * x%d' % (A4m[r][k], k) for k in range(4)) for r in range(4)]), 'matrix * vector (4x4)')
+    M['vf_m4_transform'] = ([fo(6)], vec(['%s * x0 + %s * x1 + %s * x2 + %s' % tuple(A4m[r]) for r in range(3)] + ['%s * x0 + %s * x1 + %s * x2' % tuple(A4m[r][:3]) for r in range(3)]), 'transform_point = (M (v,1))_xyz, transform_direction = (M (v,0))_xyz')
+    det4 = '(' + ' + '.join('%s%s * %s' % ('' if c % 2 == 0 else '0u - ', A4m[c][0], det3(minor(A4m, c, 0))) for c in range(4)) + ')'
+    M['vf_m4_det'] = ([], '__CPROVER_return_value == (u32)%s' % det4, 'determinant 4x4 by cofactor expansion along the first column')
+    mspec = ''
+    for f, (req, ens, what) in M.items():
+        outs = ', '.join('__CPROVER_object_whole(%s)' % o for o in (('os', 'ou') if 'os' in ''.join(req) else (('o',) if req else ())))
+        mspec += 'function %s\n' % f + ''.join('  __CPROVER_requires(%s)\n' % r for r in req) + '  __CPROVER_assigns(%s)\n' % outs + '  __CPROVER_ensures(%s)\n' % ens
+    P.generated['c14m.spec'] = mspec
+    um = P.unit('more', 'more.cpp', specs=['c14m.spec'], inline=True)
+    for f, (req, ens, what) in M.items():
+        loop = 'bit_strings' in f
+        um.contract(f, cls='W' if loop else 'P', unwind=10 if loop else None, bound='loop over the 2^N result vectors in the shim' if loop else '', backends=['z3', 'cvc5', 'sat'], stagger=3, what=what, timeout=600)
     return P
